@@ -594,9 +594,10 @@ class Fbank(LinearFilterBank):
                 val = (mel - left_mel) / (mid_mel - left_mel)
             else:
                 val = (right_mel - mel) / (right_mel - mid_mel)
-            res[idx] = val ** 0.5
+            # rounding may put a bin that coincides with an outer vertex a hair outside the triangle
+            res[idx] = max(val, 0.0) ** 0.5
             if not half and not self._analytic:
-                res[-idx] = val ** 0.5
+                res[-idx] = max(val, 0.0) ** 0.5
         return res
 
     def get_truncated_response(
@@ -621,7 +622,7 @@ class Fbank(LinearFilterBank):
                 res[idx - left_idx] = (mel - left_mel) / (mid_mel - left_mel)
             else:
                 res[idx - left_idx] = (right_mel - mel) / (right_mel - mid_mel)
-        return left_idx, res ** 0.5
+        return left_idx, np.maximum(res, 0.0) ** 0.5
 
 
 class GaborFilterBank(LinearFilterBank):
